@@ -125,6 +125,9 @@ func (r *pRun) setup() error {
 		}
 		r.file = f
 		opts = append(opts, tea.WithInput(f))
+	case "tty":
+		// a new TTY is opened for input by Run itself; fails when the process has no controlling terminal
+		opts = append(opts, tea.WithInputTTY())
 	case "reader":
 		final := io.EOF
 		if sc.Input.End == "fail" {
